@@ -18,12 +18,18 @@ DH = "thejoker.data_helpers."
 LH = "thejoker.likelihood_helpers."
 
 
-def survey(k, unit):
+def survey(k, path):
+    # every survey has its own velocity unit, and its uncertainties their own (any two speed units; the merged data must be
+    # expressed in the first survey's unit with the physical values unchanged)
+    unit = A.sym_unit(f"rv_unit_{k}", SPEED)
+    eunit = A.sym_unit(f"err_unit_{k}", SPEED)
+    path.assume(*unit.sym_facts)
+    path.assume(*eunit.sym_facts)
     n = z3.Int(f"n_{k}")
     t = fresh_arr(f"t_{k}", 1, "real", [n])
     rv = fresh_arr(f"rv_{k}", 1, "real", [n])
     err = fresh_arr(f"err_{k}", 1, "real", [n])
-    o = Obj("RVData", {"t": A.time_obj(t), "_t_bmjd": t, "rv": A.quantity(rv, unit), "rv_err": A.quantity(err, unit), "_has_cov": False,
+    o = Obj("RVData", {"t": A.time_obj(t), "_t_bmjd": t, "rv": A.quantity(rv, unit), "rv_err": A.quantity(err, eunit), "_has_cov": False,
                        "__len__": n, "cls_name": "RVData", "survey": k}, ident=f"survey{k}")
     o.type_pred = None
     return o, n
@@ -31,11 +37,9 @@ def survey(k, unit):
 
 def data_param(K, as_dict):
     def build(ex, path, name):
-        unit = A.sym_unit("rv_unit", SPEED)
-        path.assume(*unit.sym_facts)
         objs = []
         for k in range(K):
-            o, n = survey(k, unit)
+            o, n = survey(k, path)
             path.assume(n >= 1)
             objs.append(o)
         path.ghost["surveys"] = objs
@@ -202,14 +206,23 @@ trend_matrix = Contract(
     ensures={
         "shape": "result.shape[0] == len(data) and result.shape[1] == m() + poly_trend - 1",
         "constant-and-offset-columns-first": "all(result[r, j] == (1 if (j == 0 or ids[r] == unq()[j]) else 0) for r in range(len(data)) for j in range(m()))",
+        "linear-trend-column-is-time-since-t_ref": "implies(poly_trend >= 2, all(result[r, m()] == data._t_bmjd[r] - data._t_ref_bmjd for r in range(len(data))))",
         "then-powers-of-time-since-t_ref": "all(result[r, m() + k] == ipow_(data._t_bmjd[r] - data._t_ref_bmjd, k + 1) "
                                            "for r in range(len(data)) for k in range(poly_trend - 1))",
     })
 
 CONTRACTS = vpd + [ct_matrix, ct_matrix_default, trend_matrix]
 CALLEES_VPD = {"thejoker.data.RVData": ctor, "thejoker.data.RVData.__init__": ctor, LH + "get_trend_design_matrix": trend_callee}
+
+# the merged observations themselves (values and units, not the survey labels): also listed by C01 (the likelihood is evaluated on the
+# merged data) and C07 (surveys given in different velocity units)
+vpd_data = Contract(DH + "validate_prepare_data", PROPERTY, params={"data": data_param(2, False), "poly_trend": "pos", "n_offsets": "int"},
+                    cases=[{"_name": "list,K=2"}], defs=VPD_DEFS,
+                    ensures={k: VPD_ENS[k] for k in ("union-of-the-inputs", "time-velocity-error-from-the-same-input-row", "unit-of-the-first-source")})
 CALLEES = dict(CALLEES_VPD)
 CALLEES[LH + "get_constant_term_design_matrix"] = ct_callee
+vpd_data.callees = dict(CALLEES)
+vpd_data.lib = dict(LIB)
 ASSUMPTIONS = ["RVData.__init__ contract (proved in C15) used at the call site, for finite inputs (sources are cleaned when built)",
                "numpy: concatenate, stable argsort (identity on non-decreasing input), unique (sorted distinct values), boolean-mask column store, vander, hstack"]
 NOT_DECIDED = ["that the number of distinct survey labels minus one equals n_offsets on the returning path (pigeonhole; decided by the twin and by C18)",
